@@ -1,9 +1,10 @@
 #!/bin/sh
-# tools/ingest_seed.sh <ID>  -- copy round-2 seeds from /tmp/wt/<ID>/seeded/{1,2} to seeded/<ID>-3, -4,
-# run the property's quick check against each mutant, remove the worktree.
-id=$1
+# tools/ingest_seed.sh <ID> [offset]  -- copy the seeds a sub-agent left in /tmp/wt/<ID>/seeded/{1,2} to
+# seeded/<ID>-(offset+1), -(offset+2) (offset 2 = round 2, 4 = round 3), run the property's quick check
+# against each mutant, remove the worktree.
+id=$1; off=${2:-2}
 for k in 1 2; do
-  n=$((k+2))
+  n=$((k+off))
   [ -d /tmp/wt/$id/seeded/$k ] || continue
   mkdir -p seeded/$id-$n; cp /tmp/wt/$id/seeded/$k/* seeded/$id-$n/ 2>/dev/null
   echo "== $id-$n: $(python3 -c "import json;print(json.load(open('seeded/$id-$n/meta.json')).get('summary','')[:160])")"
